@@ -16,6 +16,8 @@
 (* alone, whatever happened before (other batches, other groups, other field  *)
 (* kinds, unsupported kinds, missing fields).                                 *)
 (*                                                                           *)
+(* Field kinds: int, float, str (value "s<n>", modelled by n), bool (0/1),    *)
+(* none (the field is missing).                                              *)
 (* Values: an int field value is the integer itself; a float field value x   *)
 (* is represented by the integer S*x (S = 60), so that means, medians and     *)
 (* moving averages of up to 6 integer-valued inputs stay integral; mean and   *)
@@ -25,7 +27,7 @@ EXTENDS Integers, Sequences, FiniteSets, TLC, SequencesExt, Functions
 
 CONSTANTS
     Groups,      \* group tag values
-    Kinds,       \* kinds of field x the environment feeds: subset of {"int","float","str","none"}
+    Kinds,       \* kinds of field x the environment feeds: subset of {"int","float","str","bool","none"}
     Values,      \* model values
     Cfgs,        \* node configurations [fn, arg, as, upt]
     Modes,       \* subset of {"batch","stream"}
@@ -46,7 +48,7 @@ AllFns == Aggs \cup Sels \cup Multi \cup Trans
 EmptyOK(fn) == fn \in {"count", "sum"}
 Supported(fn, k) ==
     IF fn \in {"count", "distinct", "first", "last", "elapsed"}
-    THEN k \in {"int", "float", "str"}
+    THEN k \in {"int", "float", "str", "bool"}
     ELSE k \in {"int", "float"}
 
 (* factor from a value of kind k to the scaled float representation *)
@@ -357,7 +359,7 @@ Init ==
     /\ st = St0 /\ open = "-" /\ cur = Cur0
     /\ emitted = <<>> /\ refEmitted = <<>> /\ nb = 0
 
-MkPt(t, k, v, n) == [t |-> t, k |-> k, v |-> IF k = "float" THEN S * v ELSE v, h |-> IF n % 2 = 1 THEN "p" ELSE "q", i |-> n]
+MkPt(t, k, v, n) == [t |-> t, k |-> k, v |-> IF k = "float" THEN S * v ELSE IF k = "bool" THEN (IF v > 0 THEN 1 ELSE 0) ELSE v, h |-> IF n % 2 = 1 THEN "p" ELSE "q", i |-> n]
 
 Begin(g) ==
     /\ mode = "batch" /\ open = "-" /\ nb < MaxBatches
@@ -439,6 +441,6 @@ EmptyRule ==
         emitted[j].typ = "red" /\ emitted[j].acc = <<>> => EmptyOK(cfg.fn) /\ emitted[j].k = "float"
 
 TypeOK ==
-    /\ st.cur \in {"invalid", "int", "float", "str"} /\ st.crt \in {"nil", "int", "float", "str"}
-    /\ \A g \in Groups : st.grp[g].rc # Nil => st.grp[g].rc.k \in {"int", "float", "str"}
+    /\ st.cur \in {"invalid", "int", "float", "str", "bool"} /\ st.crt \in {"nil", "int", "float", "str", "bool"}
+    /\ \A g \in Groups : st.grp[g].rc # Nil => st.grp[g].rc.k \in {"int", "float", "str", "bool"}
 =============================================================================
